@@ -18,5 +18,6 @@ func controlsC10() []Control {
 		{Name: "last action never cleared at round close", Expect: "R9", Mutate: replaceIn("(*tableEngine).updateGameState", "if event == pokerface.GameEvent_RoundClosed {", "if event != pokerface.GameEvent_RoundClosed {", 0)},
 		{Name: "published action carries round and hand id only when no hand exists", Expect: "R7", Mutate: replaceIn("(*tableEngine).createPlayerGameAction", "if te.table.State.GameState != nil {", "if te.table.State.GameState == nil {", 0)},
 		{Name: "published action carries the seat only for out-of-range indexes", Expect: "R7", Mutate: replaceIn("(*tableEngine).createPlayerGameAction", "if playerIdx < len(te.table.State.PlayerStates) {", "if playerIdx >= len(te.table.State.PlayerStates) {", 0)},
+		{Name: "allowed-action validator refuses whenever a ready group exists", Expect: "R6", Mutate: replaceIn("(*game).validateActionMove", "if g.rg == nil {", "if g.rg != nil {", 0)},
 	}
 }
